@@ -82,7 +82,16 @@ package dsd
 //@   modifies *
 //@   ensures !(compression == 0 || compression == 90) ==> r1 != nil
 //@   at call varint.Pack8 assert arg0 == (compression == 0 ? old(DefaultCompressionFormat) : compression)
-//@   at call Dump assert arg1 == format
+//@   at optional call Dump assert arg1 == format
+// what goes into the compressor is exactly one complete result of Dump (which starts with the
+// identifier of the resolved serialization format, see Dump's contract), written once
+//@   ghost var dumped []byte = nil
+//@   ghost var dumpOK bool = false
+//@   ghost var writes int = 0
+//@   at optional after Dump ghost dumped = ret0
+//@   at optional after Dump ghost dumpOK = (ret1 == nil)
+//@   at call (*Writer).Write assert dumpOK && arg1 == dumped && writes == 0
+//@   at call (*Writer).Write ghost writes = writes + 1
 
 // ---- HTTP: the content type names the encoding actually used
 //@ func RequestHTTPResponseFormat
